@@ -226,7 +226,8 @@ class KindFlow:
                 return self.visit(sc["args"][0] if sc.get("k") == "Call" and sc.get("args") else sc, S)
             if src == "ForLoop":
                 self.visit(e["scrut"], S)
-                self.visit(e["arms"], S)
+                for arm in e["arms"]:          # the arms are alternatives (None => break | Some(x) => body), not a sequence
+                    self.visit(arm, S)
                 return S
             S = self.visit(e["scrut"], S)
             rest, out = set(S), set()
